@@ -13,16 +13,28 @@ A metamorphic oracle permutes the cells of every layer and requires the output t
 Generators: 2..6 data layers (+ unused variables), shapes 1x1 .. 5x6 non-square, ints / floats / float32,
 ties, NaN, every data_vars form (None, subsets, orders), every ref_var choice, integer reference layers
 in 1..n (also 0, n+1, negative), memory layouts C / F / strided / F-strided / negative strides / mixed.
+Edge stream (`gen_edge`, value families of harness/edge_values.py): every layer dtype (float32/64, int8..uint64),
+per cell one of: a *cluster* (a base value and its neighbours in each layer's dtype: nextafter in float32 / float64,
+relative 1e-5..1e-9, absolute 1e-8..1e-12, +-1 on integers up to 2^53 -- different numbers that a tolerance would
+merge, next to exact ties across dtypes), +-inf in every combination across the layers, 0.0 / -0.0 / subnormal,
+huge magnitudes and the dtype limits, plain small ties; the reference of the frequency operators is the base or one
+of its neighbours in any dtype.  The oracle compares exact numbers (Fractions, +-inf); never a tolerance for
+equality / order (sum / mean / std / averaged median are compared within 1e-9 only where float64 evaluation of the
+statistic is well conditioned, and skipped where +inf and -inf meet).
+Platform equality: `ref_list` holds NumPy scalars, the tuples hold Python scalars; under NumPy's promotion rules a
+float32 reference is compared in float32 (the Python scalar is rounded to float32 first).  For a float32 reference
+layer the frequency oracle therefore uses that promoted comparison; all other dtype pairs compare exactly for
+|values| <= 2^53, which the generators respect.
 """
 import itertools
 import math
-import statistics
 from fractions import Fraction
 
 import numpy as np
 import xarray as xr
 
-from common import Driver, close, tok, untok, untok_exact
+import edge_values as ev
+from common import Driver, close, tok
 
 PROP = "C17"
 
@@ -36,39 +48,24 @@ KEY_D11 = "D11:nditer-memory-order"
 
 
 # ---------------------------------------------------------------- datasets
-def lay(a, layout):
-    """the same values under a different memory layout"""
-    a = np.ascontiguousarray(a)
-    h, w = a.shape
-    if layout == "C":
-        return a
-    if layout == "F":
-        return np.asfortranarray(a)
-    if layout == "strided":
-        big = np.full((2 * h, 3 * w), 99, dtype=a.dtype)
-        v = big[::2, ::3]
-        v[...] = a
-        return v
-    if layout == "stridedF":
-        big = np.full((3 * w, 2 * h), 99, dtype=a.dtype)
-        v = big.T[::2, ::3]
-        v[...] = a
-        return v
-    if layout == "neg":
-        big = np.ascontiguousarray(a[::-1, ::-1])
-        return big[::-1, ::-1]
-    raise ValueError(layout)
+lay = ev.layout
+INF = math.inf
+
+
+def exq(v):
+    """a stored scalar as an exact number: Fraction, +-inf (float), None for NaN"""
+    e = ev.exact(v)
+    return None if e == "nan" else INF if e == "inf" else -INF if e == "-inf" else e
 
 
 def build(case):
-    """case json -> (Dataset, {name: exact row-major list of Fraction|None})"""
-    h, w = case["shape"]
+    """case json -> (Dataset, {name: exact row-major list of Fraction | +-inf | None}); the arrays hold exactly the
+    numbers named by the tokens (no detour through float64), the exact values are read back from the arrays"""
     dvars, exact = {}, {}
     for v in case["vars"]:
-        flat = [untok(t) for row in v["values"] for t in row]
-        a = np.array(flat, dtype=np.float64).reshape(h, w).astype(v["dtype"])
+        a = ev.array(v["values"], v["dtype"])
         dvars[v["name"]] = (("y", "x"), lay(a, v["layout"]))
-        exact[v["name"]] = [None if t == "nan" else untok_exact(t) for row in v["values"] for t in row]
+        exact[v["name"]] = [exq(x) for x in a.ravel(order="C")]
     return xr.Dataset(dvars), exact
 
 
@@ -112,9 +109,36 @@ def fr(x):
     return None if x is None else Fraction(x)
 
 
-def expect_cell(case, tup, ref):
+def to_float(q):
+    try:
+        return float(q)
+    except OverflowError:
+        return INF if q > 0 else -INF
+
+
+def well_conditioned(tup, result):
+    """is the float64 evaluation of a sum-like statistic of `tup` within the comparison tolerance of the exact
+    `result`?  (n * 4 ulp of the largest operand against rel 1e-9 / abs 1e-12 -- decided from the exact
+    numbers, so the verdict never depends on the run)"""
+    m = max(abs(t) for t in tup)
+    if m > Fraction(10) ** 100:
+        return False
+    return len(tup) * 4 * Fraction(1, 2 ** 52) * m * 4 <= Fraction(1, 10 ** 9) * abs(result) + Fraction(1, 10 ** 12)
+
+
+def seen_by(ref_dtype, t):
+    """the layer value as the comparison with the reference scalar sees it: NumPy converts the Python scalar to
+    float32 when the reference is a float32 (NEP 50); every other pair compares exactly for |values| <= 2^53"""
+    if ref_dtype == "float32" and t is not None:
+        with np.errstate(all="ignore"):
+            return exq(np.float32(to_float(t) if not isinstance(t, float) else t))
+    return t
+
+
+def expect_cell(case, tup, ref, ref_dtype=None):
     """expected value at one cell from the property statement.
-    returns ('nan',) | ('val', Fraction) | ('std', variance) | ('skip',)"""
+    returns ('nan',) | ('exact', Fraction | +-inf) | ('val', Fraction | +-inf) | ('std', variance) | ('skip',)
+    ('exact': compared with ==; 'val' / 'std': a float64 evaluation, compared within 1e-9 where well conditioned)"""
     op = case["op"]
     if any(t is None for t in tup):
         return ("nan",)
@@ -122,32 +146,47 @@ def expect_cell(case, tup, ref):
     if op == "cell_stats":
         f = case["func"]
         if f == "max":
-            return ("val", max(tup))
+            return ("exact", max(tup))
         if f == "min":
-            return ("val", min(tup))
-        if f == "sum":
-            return ("val", sum(tup))
-        if f == "mean":
-            return ("val", sum(tup) / n)
+            return ("exact", min(tup))
+        infs = {t for t in tup if isinstance(t, float)}
         if f == "median":
-            return ("val", Fraction(statistics.median(tup)))
+            s_ = sorted(tup)
+            mids = [s_[n // 2]] if n % 2 else [s_[n // 2 - 1], s_[n // 2]]
+            if len(mids) == 1:
+                return ("exact", mids[0])
+            if any(isinstance(t, float) for t in mids):
+                return ("skip",) if mids[0] != mids[1] else ("exact", mids[0])
+            med = (mids[0] + mids[1]) / 2
+            return ("val", med) if well_conditioned(mids, med) else ("skip",)
+        if infs:
+            if len(infs) == 2 or f == "std":
+                return ("skip",)         # inf - inf: the statistic is not a number
+            return ("val", infs.pop())
+        if f == "sum":
+            return ("val", sum(tup)) if well_conditioned(tup, sum(tup)) else ("skip",)
         m = sum(tup) / n
-        return ("std", sum((t - m) ** 2 for t in tup) / n)
+        if f == "mean":
+            return ("val", m) if well_conditioned(tup, m) else ("skip",)
+        var = sum((t - m) ** 2 for t in tup) / n
+        sd = Fraction(math.isqrt(int(var * 10 ** 40))) / 10 ** 20 if var < 10 ** 150 else var
+        return ("std", var) if well_conditioned(tup, sd) else ("skip",)
     if op == "lowest_position":
-        return ("val", Fraction(min(i for i in range(n) if tup[i] == min(tup)) + 1))
+        return ("exact", Fraction(min(i for i in range(n) if tup[i] == min(tup)) + 1))
     if op == "highest_position":
-        return ("val", Fraction(min(i for i in range(n) if tup[i] == max(tup)) + 1))
+        return ("exact", Fraction(min(i for i in range(n) if tup[i] == max(tup)) + 1))
     if op in OPS_FREQ:
         if ref is None:
             return ("skip",)             # reference layers are integer valued in the property
+        tup = [seen_by(ref_dtype, t) for t in tup]
         cnt = {"lesser_frequency": sum(1 for t in tup if t < ref),
                "equal_frequency": sum(1 for t in tup if t == ref),
                "greater_frequency": sum(1 for t in tup if t > ref)}[op]
-        return ("val", Fraction(cnt))
+        return ("exact", Fraction(cnt))
     if op == "rank":
-        if ref is None or ref.denominator != 1 or not (1 <= ref <= n):
+        if ref is None or isinstance(ref, float) or ref.denominator != 1 or not (1 <= ref <= n):
             return ("skip",)             # the property speaks of references in 1..n
-        return ("val", sorted(tup)[int(ref) - 1])
+        return ("exact", sorted(tup)[int(ref) - 1])
     return ("skip",)                     # popularity: only per-cell-ness and NaN absorption
 
 
@@ -158,6 +197,7 @@ def oracle(case, status, out, key, exact):
     n = h * w
     op = case["op"]
     ref = exact.get(case.get("ref_var")) if op in OPS_FREQ + OPS_IREF else None
+    ref_dtype = next((v["dtype"] for v in case["vars"] if v["name"] == case.get("ref_var")), None)
     if status != "ok":
         if status == "IndexError" and op in OPS_IREF and any(r is not None and r < 1 for r in ref):
             return None                  # a reference <= 0 is outside the property's domain
@@ -169,18 +209,21 @@ def oracle(case, status, out, key, exact):
     if op == "combine":
         return oracle_combine(tuples, flat, key)
     for i in range(n):
-        e = expect_cell(case, tuples[i], ref[i] if ref is not None else None)
+        e = expect_cell(case, tuples[i], ref[i] if ref is not None else None, ref_dtype)
         g = flat[i]
         where = f"{op}{'/' + case['func'] if op == 'cell_stats' else ''}: cell {divmod(i, w)} layers={show(tuples[i])}" \
                 + (f" ref={ref[i]}" if ref is not None else "")
         if e[0] == "nan":
             if g == g:
                 return ("nan", f"{where}: a NaN data layer gave {g}")
+        elif e[0] == "exact":             # a count, a position or one of the layer values: the very number
+            if not g == to_float(e[1]):
+                return ("value", f"{where}: got {g!r}, the property gives {e[1]}")
         elif e[0] == "val":
-            if not close(g, float(e[1]), rel=1e-9, abs_=1e-12):
+            if not close(g, to_float(e[1]), rel=1e-9, abs_=1e-12):
                 return ("value", f"{where}: got {g}, the property gives {e[1]}")
         elif e[0] == "std":
-            if not close(g, math.sqrt(float(e[1])), rel=1e-9, abs_=1e-12):
+            if not close(g, math.sqrt(to_float(e[1])), rel=1e-9, abs_=1e-12):
                 return ("value", f"{where}: got {g}, the property gives sqrt({e[1]})")
     return None
 
@@ -211,7 +254,7 @@ def oracle_combine(tuples, flat, key):
     if list(key) != sorted(key):
         return ("key", f"combine: key not in id order {list(key)}")
     for k in want:
-        kt = tuple(Fraction(float(x)) for x in key[k])
+        kt = tuple(exq(x) for x in key[k])
         if kt != want[k]:
             return ("key", f"combine: key[{k}]={key[k]} expected {show(want[k])}")
     return None
@@ -268,20 +311,51 @@ def metamorphic(case, rng, status, out):
 
 
 # ---------------------------------------------------------------- model request
+ARITH = ("sum", "mean", "std", "median")
+
+
+def ref_dtype_of(case):
+    return next((v["dtype"] for v in case["vars"] if v["name"] == case.get("ref_var")), None)
+
+
 def request(case, exact):
+    """(request line | None, decoding of stand-in values).  The model computes with exact rationals:
+    * a float32 reference of a frequency operator: the layers are sent as the comparison sees them (`seen_by`);
+    * +-inf: every operator except the sum-like statistics depends on the order / equality of the values only, so
+      +inf / -inf are sent as a rational above / below every finite value of the request and decoded in the reply;
+      the sum-like statistics of a dataset holding an infinity are not sent (oracle only)."""
     layers = resolve(case)
+    op = case["op"]
     h, w = case["shape"]
-    parts = [f"local op={case['op']} n={h * w} cols={w}"]
-    if case["op"] == "cell_stats":
+    cols = [list(exact[nm]) for nm in layers]
+    refs = list(exact[case["ref_var"]]) if op in OPS_FREQ + OPS_IREF else None
+    if op in OPS_FREQ and ref_dtype_of(case) == "float32":
+        cols = [[seen_by("float32", t) for t in col] for col in cols]
+    allv = [t for col in cols for t in col] + (refs if op in OPS_FREQ else [])
+    dec = {}
+    if any(isinstance(t, float) for t in allv):
+        if op == "cell_stats" and case["func"] in ARITH:
+            return None, None
+        fin = [t for t in allv if t is not None and not isinstance(t, float)]
+        hi, lo = max(fin, default=Fraction(0)) + 1, min(fin, default=Fraction(0)) - 1
+        dec = {hi: INF, lo: -INF}
+
+        def emb(t):
+            return hi if t == INF else lo if t == -INF else t
+        cols = [[emb(t) for t in col] for col in cols]
+        if op in OPS_FREQ:
+            refs = [emb(t) for t in refs]
+    parts = [f"local op={op} n={h * w} cols={w}"]
+    if op == "cell_stats":
         parts.append(f"func={case['func']}")
-    for k, nm in enumerate(layers):
-        parts.append(f"L{k}=" + ",".join("nan" if v is None else tok(v) for v in exact[nm]))
-    if case["op"] in OPS_FREQ + OPS_IREF:
-        parts.append("ref=" + ",".join("nan" if v is None else tok(v) for v in exact[case["ref_var"]]))
-    return " ".join(parts)
+    for k, col in enumerate(cols):
+        parts.append(f"L{k}=" + ",".join("nan" if v is None else tok(v) for v in col))
+    if refs is not None:
+        parts.append("ref=" + ",".join("nan" if v is None else tok(v) for v in refs))
+    return " ".join(parts), dec
 
 
-def compare(case, status, out, key, reply):
+def compare(case, status, out, key, reply, exact, dec):
     """None or a description of the model/real difference"""
     if reply.startswith("err:"):
         return None if status == reply[4:] else f"real {status} model {reply}"
@@ -296,19 +370,31 @@ def compare(case, status, out, key, reply):
         return f"shape real {out.shape} model {(mh, mw)}"
     mv = vals.split(",")
     flat = [float(v) for v in out.ravel(order="C")]
-    std = case["op"] == "cell_stats" and case["func"] == "std"
+    arith = case["op"] == "cell_stats" and case["func"] in ARITH
+    std = arith and case["func"] == "std"
+    layers = resolve(case)
+    valued = case["op"] in ("cell_stats", "rank", "popularity")
     for i, (g, m) in enumerate(zip(flat, mv)):
-        me = float("nan") if m == "nan" else float(Fraction(m))
-        if std and me == me:
-            me = math.sqrt(me)
-        if not close(g, me, rel=1e-9, abs_=1e-12):
-            return f"cell {i}: real {g} model {m}{' (variance)' if std else ''}"
+        if m == "nan":
+            me = float("nan")
+        else:
+            q = Fraction(m)
+            me = dec.get(q, q) if valued else q          # counts / positions / ids are not layer values
+        if arith and me == me:
+            # a float64 evaluation against the exact value: only where it is well conditioned (see expect_cell)
+            if expect_cell(case, tuple(exact[nm][i] for nm in layers), None)[0] not in ("val", "std", "exact"):
+                continue
+            me = math.sqrt(to_float(me)) if std else to_float(me)
+            if not close(g, me, rel=1e-9, abs_=1e-12):
+                return f"cell {i}: real {g} model {m}{' (variance)' if std else ''}"
+        elif not ((g != g and me != me) or g == to_float(me)):
+            return f"cell {i}: real {g!r} model {m}"
     if case["op"] == "combine":
         mk = {}
         for ent in (mkey.split(",") if mkey else []):
             k, _, t = ent.partition(":")
-            mk[int(k)] = tuple(Fraction(x) for x in t.split(";"))
-        rk = {k: tuple(Fraction(float(x)) for x in v) for k, v in key.items() if k != "__extra__"}
+            mk[int(k)] = tuple(dec.get(Fraction(x), Fraction(x)) for x in t.split(";"))
+        rk = {k: tuple(exq(x) for x in v) for k, v in key.items() if k != "__extra__"}
         if list(mk.items()) != list(rk.items()):
             return f"key real {rk} model {mk}"
     return None
@@ -389,6 +475,118 @@ def gen_case(rng, op=None, force_layout=None, nlayers=None):
     return case, dict(kind=kind, mode=mode, form=form)
 
 
+# ---------------------------------------------------------------- edge values (harness/edge_values.py)
+EDGE_FAMILIES = ["cluster", "cluster", "cluster", "infmix", "infmix", "zeros", "huge", "plain"]
+
+
+def fit(x, dtype, rng):
+    """x if the dtype holds it, else a value of the dtype next to it (rounded / clipped)"""
+    v = ev.store(x, dtype)
+    if v is not None:
+        return v.item()
+    lo, hi = ev.limits(dtype)
+    if isinstance(x, float) and (x != x or math.isinf(x)):
+        return rng.choice([lo, hi, 0]) if abs(hi) <= ev.EXACT_LIMIT else rng.choice([0, 1])
+    if ev.is_float(dtype):
+        with np.errstate(all="ignore"):
+            y = np.dtype(dtype).type(x)
+        return y.item() if math.isfinite(float(y)) else (hi if x > 0 else lo)
+    y = max(lo, min(hi, int(math.floor(x))))
+    return y if abs(y) <= ev.EXACT_LIMIT else rng.choice([0, 1])
+
+
+def edge_cell(rng, family, dtypes, base_dtype):
+    """the values of one cell across layers of the given dtypes (last entry = the reference when present)"""
+    if family == "cluster":
+        b = rng.choice(ev.anchors(base_dtype))
+        out = []
+        for dt in dtypes:
+            c = fit(b, dt, rng)
+            nb = ev.neighbours(c, dt)
+            out.append(c if (rng.random() < 0.45 or not nb) else rng.choice(nb))
+        return out
+    if family == "infmix":
+        fin = rng.choice([0, 1, -1, 5, 1e300, -1e300])
+        return [rng.choice([math.inf, -math.inf, fit(fin, dt, rng)]) if ev.is_float(dt) else fit(rng.choice([0, 1, 5]), dt, rng)
+                for dt in dtypes]
+    if family == "zeros":
+        return [rng.choice([0.0, -0.0, 0.0, -0.0] + ev.specials(dt)[4:7]) if ev.is_float(dt) else rng.choice([0, 0, 1])
+                for dt in dtypes]
+    if family == "huge":
+        return [rng.choice([v for v in ev.specials(dt) if v == v and not (isinstance(v, float) and math.isinf(v))])
+                for dt in dtypes]
+    return [fit(rng.choice([0, 1, 1, 2, 3]), dt, rng) for dt in dtypes]
+
+
+def gen_edge(rng, op=None, force_layout=None):
+    """a dataset whose cells are drawn, cell by cell, from the edge-value families; the layers have any dtype"""
+    op = op or rng.choice(ALL_OPS)
+    h, w = rng.choice([(1, 1), (1, 4), (3, 1), (2, 2), (2, 3), (3, 2), (3, 4), (2, 5)])
+    n = h * w
+    k = rng.randrange(2, 7)
+    extra = rng.choice([0, 0, 1])
+    needs_ref = op in OPS_FREQ + OPS_IREF
+    mode = force_layout or rng.choice(["C", "C", "F", "mixed", "strided", "stridedF", "neg"])
+    wts = ["float64"] * 4 + ["float32"] * 3 + ev.INT_DTYPES
+    names = [f"v{i}" for i in range(k + extra)]
+    dtypes = [rng.choice(wts) for _ in names]
+    ref_dtype = None
+    if op in OPS_FREQ:
+        ref_dtype = rng.choice(wts)
+    elif op in OPS_IREF:
+        ref_dtype = rng.choice(ev.INT_DTYPES)
+    fam_main = rng.choice(EDGE_FAMILIES)
+    cols = [[] for _ in names]
+    refcol = []
+    fams = set()
+    for _ in range(n):
+        fam = fam_main if rng.random() < 0.7 else rng.choice(EDGE_FAMILIES)
+        fams.add(fam)
+        dts = dtypes + ([ref_dtype] if op in OPS_FREQ else [])
+        vals = edge_cell(rng, fam, dts, rng.choice(dts))
+        for c, v in zip(cols, vals):
+            c.append(v)
+        if op in OPS_FREQ:
+            refcol.append(vals[-1])
+    for c, dt in zip(cols, dtypes):                       # a few NaNs
+        if ev.is_float(dt) and rng.random() < 0.3:
+            c[rng.randrange(n)] = math.nan
+
+    def var(nm, dt, col):
+        toks = [ev.vtok(ev.store(v, dt)) for v in col]
+        layout = rng.choice(LAYOUTS) if mode == "mixed" else mode
+        return dict(name=nm, dtype=dt, layout=layout, values=[toks[i * w:(i + 1) * w] for i in range(h)])
+    vars_ = [var(nm, dt, col) for nm, dt, col in zip(names, dtypes, cols)]
+    ref_var = None
+    if needs_ref:
+        ref_var = "ref"
+        if op in OPS_IREF:
+            lo = 1 if ref_dtype.startswith("uint") else 0        # `ref - 1` wraps for an unsigned 0 (outside the property)
+            pool = list(range(1, k + 1)) * 4 + [lo, k + 1, k + 2]
+            refcol = [rng.choice(pool) for _ in range(n)]
+        elif ev.is_float(ref_dtype) and rng.random() < 0.2:
+            refcol[rng.randrange(n)] = math.nan
+        vars_.insert(rng.randrange(len(vars_) + 1), var("ref", ref_dtype, refcol))
+    data_names = [v["name"] for v in vars_ if v["name"] != "ref"]
+    form = rng.choice(["none", "subset", "all-shuffled"])
+    if form == "none":
+        data_vars = None
+    elif form == "all-shuffled":
+        data_vars = data_names[:]
+        rng.shuffle(data_vars)
+    else:
+        data_vars = rng.sample(data_names, rng.randrange(2, len(data_names) + 1))
+    case = dict(op=op, func=rng.choice(STATS) if op == "cell_stats" else None, shape=[h, w], vars=vars_,
+                data_vars=data_vars, ref_var=ref_var)
+    nl = len(resolve(case))
+    if op in OPS_IREF:
+        for row in next(v for v in vars_ if v["name"] == "ref")["values"]:
+            for j, t in enumerate(row):
+                if int(t) > nl and rng.random() < 0.7:
+                    row[j] = str(rng.randrange(1, nl + 1))
+    return case, dict(kind="edge:" + fam_main, mode=mode, form=form)
+
+
 def exhaustive_tuples(nl, op, func=None):
     """one raster whose cells are ALL tuples over {nan,0,1,2}^nl (x every reference 0..nl+1)"""
     vals = ["nan", "0", "1", "2"]
@@ -431,9 +629,15 @@ def check_one(r, case, reqs, pend, tags, rng=None, meta=False):
                         f"shape:{case['shape'][0]}x{case['shape'][1]}"])
     if bad:
         r.fail(classify(case, bad), bad[1] + f" [layouts {sorted({v['layout'] for v in case['vars']})}]", case)
-    reqs.append(request(case, exact))
-    pend.append((case, status, out, key))
+    push(case, status, out, key, exact, reqs, pend)
     return bad
+
+
+def push(case, status, out, key, exact, reqs, pend):
+    req, dec = request(case, exact)
+    if req is not None:
+        reqs.append(req)
+        pend.append((case, status, out, key, exact, dec))
 
 
 def brief(case):
@@ -443,8 +647,8 @@ def brief(case):
 
 def flush(r, reqs, pend):
     replies = Driver().ask(reqs)
-    for (case, status, out, key), rep in zip(pend, replies):
-        d = compare(case, status, out, key, rep)
+    for (case, status, out, key, exact, dec), rep in zip(pend, replies):
+        d = compare(case, status, out, key, rep, exact, dec)
         if d:
             r.disagree("local-vs-model", case, d, rep[:300])
     reqs.clear()
@@ -455,10 +659,14 @@ def declare(r):
     import common
     r.extra["repo_under_test"] = common.REPO
     r.assumptions[:] = [
-        "hand model (Model/Local.lean) tied to xrspatial/local.py by the correspondence run only",
+        "model (Model/Local.lean) tied to xrspatial/local.py by the generated shapes of Gen/LocalFacts.lean (comparisons, NaN "
+        "tests, nditer order, offsets, numbering; harness/facts_local.py) and by the correspondence run",
         "the model follows the code as repaired by fixes/D11-local-nditer-index-order.patch (index-order iteration)",
-        "exact rational arithmetic: mean compared within 1e-9, std = sqrt of the model's exact variance within 1e-9; "
-        "+-inf layer values are outside the model",
+        "exact rational arithmetic: sum / mean / std (= sqrt of the exact variance) / averaged median compared within 1e-9 "
+        "where float64 evaluation is well conditioned; every other output compared with ==; +-inf reaches the model as "
+        "rationals beyond the finite values for the order-only operators, sum-like statistics with +-inf are oracle-only",
+        "a float32 reference layer is compared in float32 by NumPy (the Python scalar is rounded first): the frequency "
+        "oracle and the model request follow that promotion; other dtype pairs are exact for |v| <= 2^53 (generated range)",
         "same-shaped 2-D layers, at least two data layers (np.nditer over one array yields scalars and the code raises)",
         "rank / popularity: integer reference layers; references <= 0 follow Python's negative indexing (outside the property)",
     ]
@@ -472,7 +680,10 @@ def run(r, n_override=None, bias=None):
               "variables, shape 1x1..5x6, dtypes f8/f4/i8/i4, values ties{0,1,2}/ints/dyadics/wide, NaN in 45% of "
               "float layers, data_vars None/subset/shuffled, ref anywhere in the dataset, integer refs in 1..n mostly, "
               "layouts C/F/strided/F-strided/negative-strides/mixed; plus rasters holding ALL tuples over "
-              "{nan,0,1,2}^n; non-trivial = distinct case with a tie inside a NaN-free tuple or >= 2 NaN-free cells")
+              "{nan,0,1,2}^n; plus the edge stream: layers of every dtype f4/f8/i1..u8, per cell a near-tie cluster "
+              "(nextafter f4/f8, rel 1e-5..1e-9, abs 1e-8..1e-12, +-1 on ints up to 2^53) / +-inf combinations / "
+              "0.0,-0.0,subnormal / huge and dtype limits / plain ties, reference = base or neighbour in any dtype; "
+              "non-trivial = distinct case with a tie inside a NaN-free tuple or >= 2 NaN-free cells")
     reqs, pend = [], []
     for body in r.corpus():
         case = body["case"]
@@ -482,8 +693,7 @@ def run(r, n_override=None, bias=None):
         r.case(case, nontrivial=True, tags=["corpus"])
         if bad:
             r.fail(classify(case, bad), bad[1] + " [corpus]", case)
-        reqs.append(request(case, exact))
-        pend.append((case, status, out, key))
+        push(case, status, out, key, exact, reqs, pend)
     # exhaustive per-cell tables
     max_nl = {"quick": 3, "thorough": 5}[r.tier]
     for nl in range(2, max_nl + 1):
@@ -497,6 +707,14 @@ def run(r, n_override=None, bias=None):
         case, info = gen_case(r.rng, op=op, force_layout=bias)
         check_one(r, case, reqs, pend, [f"kind:{info['kind']}", f"layout:{info['mode']}", f"data_vars:{info['form']}"],
                   rng=r.rng, meta=(k % 5 == 0))
+        if len(reqs) >= 4000:
+            flush(r, reqs, pend)
+    n_edge = {"quick": 8000, "thorough": 100000}[r.tier] if n_override is None else n_override
+    for k in range(n_edge):
+        op = ALL_OPS[k % len(ALL_OPS)]
+        case, info = gen_edge(r.rng, op=op, force_layout=bias)
+        check_one(r, case, reqs, pend, ["edge", f"kind:{info['kind']}", f"layout:{info['mode']}", f"data_vars:{info['form']}"],
+                  rng=r.rng, meta=(k % 7 == 0))
         if len(reqs) >= 4000:
             flush(r, reqs, pend)
     flush(r, reqs, pend)
